@@ -185,11 +185,12 @@ def check_flush(eng, run):
     run.ob("C08.flush", f"{fn.short}:flush-before-read-and-before-return", not an.viol, flush_sites=len(an.flushes))
     # WANT_WRITE: unconditional flush
     ok = False
+    from sa.norm import handler_arms
     for t in [x for x in own_nodes(fn.node) if isinstance(x, ast.Try)]:
-        for h in t.handlers:
+        for h in handler_arms(t):  # real handlers, or the isinstance arms of one dispatching handler
             if h.type is not None and "SSLWantWriteError" in ast.unparse(h.type):
-                sends = [n for n in ast.walk(h) if isinstance(n, ast.Call) and _cname(n) == "send_all"]
-                conditional = any(isinstance(n, ast.If) for n in ast.walk(h))
+                sends = [n for st in h.body for n in ast.walk(st) if isinstance(n, ast.Call) and _cname(n) == "send_all"]
+                conditional = any(isinstance(n, ast.If) for st in h.body for n in ast.walk(st))
                 ok = bool(sends) and not conditional
     if not ok:
         run.finding("C08.flush", fn, fn.node, "the WANT_WRITE arm no longer flushes the outgoing BIO unconditionally")
@@ -197,14 +198,14 @@ def check_flush(eng, run):
     # eof on both BIOs before OSError / SSLError propagate
     n_arms = 0
     for t in [x for x in own_nodes(fn.node) if isinstance(x, ast.Try)]:
-        for h in t.handlers:
+        for h in handler_arms(t):
             ty = ast.unparse(h.type) if h.type is not None else ""
-            if ty in ("OSError", "_ssl_module.SSLError"):
+            if ty in ("OSError", "_ssl_module.SSLError") and h.body:
                 n_arms += 1
                 # the arm itself plus the private helpers it calls (the two write_eof() calls may have been extracted)
                 from sa.norm import nodes_inl, private_helper
-                src = ast.unparse(h)
-                for c_ in [x for x in ast.walk(h) if isinstance(x, ast.Call)]:
+                src = "\n".join(ast.unparse(st) for st in h.body)
+                for c_ in [x for st in h.body for x in ast.walk(st) if isinstance(x, ast.Call)]:
                     g_ = private_helper(fn, c_)
                     if g_ is not None:
                         src += "\n" + "\n".join(ast.unparse(n_) for n_, _o in nodes_inl(g_) if isinstance(n_, ast.Call))
@@ -494,20 +495,21 @@ def run(eng, run):
     _verify_anchor_names(eng, run)
     from sa.report import RuleAlias
     run.not_decided += NOT_DECIDED
-    check_conf(eng, run)
-    check_flush(eng, run)
-    check_drain(eng, run)
-    check_zero_read(eng, run)
-    check_remove_after_write(eng, run)
-    check_underlying(eng, run)
-    check_locks(eng, run)
+    run.attempt(check_conf, eng, run)
+    run.attempt(check_flush, eng, run)
+    run.attempt(check_drain, eng, run)
+    run.attempt(check_zero_read, eng, run)
+    run.attempt(check_remove_after_write, eng, run)
+    run.attempt(check_underlying, eng, run)
+    run.attempt(check_locks, eng, run)
     from sa.analyses.sharing import check_private_buffers
-    check_private_buffers(eng, run, "C08.recv", ("easynetwork.lowlevel.api_async.transports", "easynetwork.lowlevel.api_async.backend._asyncio.stream"), 2)
+    run.attempt(check_private_buffers, eng, run, "C08.recv", ("easynetwork.lowlevel.api_async.transports", "easynetwork.lowlevel.api_async.backend._asyncio.stream"), 2)
     # the TLS transport reads its ciphertext through the asyncio stream protocol: its pause/resume pairing and water marks are
     # part of "no deadlock over any fragmentation" (a paused transport that is never resumed starves the TLS reader)
     from rules import c03
-    c03.check_flow(eng, RuleAlias(run, "C08.recv"))
-    c03.check_water_marks(eng, run, rule="C08.recv")
+    run.attempt(c03.check_flow, eng, RuleAlias(run, "C08.recv"))
+    run.attempt(c03.check_water_marks, eng, run, rule="C08.recv")
+    run.end_of_rules()
 
 
 # ---------------------------------------------------------------------------------------------- self-test corpus
